@@ -72,8 +72,9 @@ ScaleP(p, k) == <<k * p[1], k * p[2]>>
 SegDist2(a, b, c) == LET t == Dot(a, b, c)  L == Len2(a, b) IN
                      IF t <= 0 THEN <<Len2(a, c), 1>> ELSE IF t >= L THEN <<Len2(b, c), 1>>
                      ELSE <<Cross(a, b, c) * Cross(a, b, c), L>>
-(* nd[1]/nd[2] <= (k1/k2) * r2 ; the first test keeps the products inside 32 bits (k1/k2 < 2) *)
-LeqFrac(nd, k1, k2, r2) == IF nd[1] > 2 * r2 * nd[2] THEN FALSE ELSE k2 * nd[1] <= k1 * r2 * nd[2]
+(* nd[1]/nd[2] <= (k1/k2) * r2 / h ; the first test keeps the products inside 32 bits (k1/k2 < 2) *)
+LeqFracH(nd, k1, k2, r2, h) == IF h * nd[1] > 2 * r2 * nd[2] THEN FALSE ELSE k2 * h * nd[1] <= k1 * r2 * nd[2]
+LeqFrac(nd, k1, k2, r2)     == LeqFracH(nd, k1, k2, r2, 1)
 
 (* ------------------------------ rotations and rectangles --------------------------------------------- *)
 Id       == <<1, 0, 1>>
@@ -103,14 +104,18 @@ PrimContains3(s, p, noisy) ==
       [] s.k = "poly" -> IF noisy /\ OnBoundary(s.v, p) THEN "EITHER" ELSE B3(InPoly(s.v, p))
 ContainsPoint3(s, p, noisy) == IF s.k = "group" THEN Any3({PrimContains3(s.ms[i], p, noisy) : i \in DOMAIN s.ms})
                                ELSE PrimContains3(s, p, noisy)
-(* Exported3: the exported planar geometry covers the point; discs are exported as polygonal approximations *)
-DiscBand(s, p) == LET nd == <<Len2(s.c, p), 1>>  r2 == s.r * s.r IN
-                  IF LeqFrac(nd, 9801, 10000, r2) THEN "T"                                        \* d <= 0.99 r
-                  ELSE IF LeqFrac(nd, 10201, 10000, r2) THEN "EITHER" ELSE "F"                    \* band (B1); d > 1.01 r
-PrimExported3(s, p, noisy) == IF s.k = "disc" THEN DiscBand(s, p) ELSE PrimContains3(s, p, noisy)
-Exported3(s, p, noisy) == IF s.k = "group" THEN Any3({PrimExported3(s.ms[i], p, noisy) : i \in DOMAIN s.ms})
-                          ELSE PrimExported3(s, p, noisy)
+(* Exported3: the exported planar geometry covers the point; discs are exported as polygonal approximations.        *)
+(* h = 1 is the contract.  h = 4 is the NAMED DEVIATION "half-radius" (r^2 / 4): it is used only to give a rejected   *)
+(* event a more specific clause name when what the code returned is exactly what a disc of radius r/2 would give.      *)
+DiscBandH(s, p, h) == LET nd == <<Len2(s.c, p), 1>>  r2 == s.r * s.r IN
+                      IF LeqFracH(nd, 9801, 10000, r2, h) THEN "T"                                 \* d <= 0.99 r
+                      ELSE IF LeqFracH(nd, 10201, 10000, r2, h) THEN "EITHER" ELSE "F"             \* band (B1); d > 1.01 r
+PrimExported3H(s, p, noisy, h) == IF s.k = "disc" THEN DiscBandH(s, p, h) ELSE PrimContains3(s, p, noisy)
+Exported3H(s, p, noisy, h) == IF s.k = "group" THEN Any3({PrimExported3H(s.ms[i], p, noisy, h) : i \in DOMAIN s.ms})
+                              ELSE PrimExported3H(s, p, noisy, h)
+Exported3(s, p, noisy) == Exported3H(s, p, noisy, 1)
 InAnyBand(s, p, noisy) == Exported3(s, p, noisy) = "EITHER" \/ ContainsPoint3(s, p, noisy) = "EITHER"
+HasDisc(s) == s.k = "disc" \/ (s.k = "group" /\ \E i \in DOMAIN s.ms : s.ms[i].k = "disc")
 
 (* ------------------------------ part 1: lanelet polygon against point / shape ------------------------ *)
 (* noisy: the lanelet vertices went through a rotation by a float angle (band (B2))                     *)
@@ -119,18 +124,20 @@ PosRel(P, p, noisy) == IF InPolyStrict(P, p) THEN "T" ELSE IF ~InPoly(P, p) THEN
 RingRel(P, Q, w, exact) ==                      \* P, Q rings in the same scale; w a point of Q's interior (or <<>>)
     IF ~PolyMeet(P, Q) THEN "F" ELSE IF exact THEN "T"
     ELSE IF PolyStrong(P, Q) \/ (w # <<>> /\ InPolyStrict(P, w)) THEN "T" ELSE "EITHER"
-DiscRel(P, s) ==                                \* the EXPORTED disc against the closed polygon
+DiscRelH(P, s, h) ==                            \* the EXPORTED disc against the closed polygon
     IF InPoly(P, s.c) THEN "T"
     ELSE LET r2 == s.r * s.r
              D  == {SegDist2(P[i], Nxt(P, i), s.c) : i \in 1..Len(P)}
-         IN IF \E nd \in D : LeqFrac(nd, 9801, 10000, r2) THEN "T"
-            ELSE IF \E nd \in D : LeqFrac(nd, 10201, 10000, r2) THEN "EITHER" ELSE "F"
-PrimRel(P, s, noisy) ==
+         IN IF \E nd \in D : LeqFracH(nd, 9801, 10000, r2, h) THEN "T"
+            ELSE IF \E nd \in D : LeqFracH(nd, 10201, 10000, r2, h) THEN "EITHER" ELSE "F"
+DiscRel(P, s) == DiscRelH(P, s, 1)
+PrimRelH(P, s, noisy, h) ==
     CASE s.k = "rect" -> RingRel(Scale(P, s.rot[3]), RectRing(s), ScaleP(s.c, s.rot[3]), ~noisy /\ ExactRot(s.rot))
       [] s.k = "poly" -> RingRel(P, s.v, <<>>, ~noisy)
-      [] s.k = "disc" -> DiscRel(P, s)
-ShapeRel(P, s, noisy) == IF s.k = "group" THEN Any3({PrimRel(P, s.ms[i], noisy) : i \in DOMAIN s.ms})
-                         ELSE PrimRel(P, s, noisy)
+      [] s.k = "disc" -> DiscRelH(P, s, h)
+ShapeRelH(P, s, noisy, h) == IF s.k = "group" THEN Any3({PrimRelH(P, s.ms[i], noisy, h) : i \in DOMAIN s.ms})
+                             ELSE PrimRelH(P, s, noisy, h)
+ShapeRel(P, s, noisy) == ShapeRelH(P, s, noisy, 1)
 
 (* truth operators on a network (sequence of [id, v]) *)
 Ids(net)              == {net[k].id : k \in DOMAIN net}
@@ -142,14 +149,27 @@ MaySet(net, Rel(_))   == {net[k].id : k \in {j \in DOMAIN net : Rel(net[j].v) # 
 SetOk(res, net, Rel(_)) == /\ MustSet(net, Rel) \subseteq Range(res)
                            /\ Range(res) \subseteq MaySet(net, Rel)
                            /\ Cardinality(Range(res)) = Len(res)
+NetFn(net) == [i \in Ids(net) |-> net[CHOOSE k \in DOMAIN net : net[k].id = i].v]
 UniqueIds(net) == Cardinality(Ids(net)) = Len(net)
 
 (* obstacles: [id |-> obstacle id, occ |-> <<shape>> (occupied region at the queried time step) or <<>> (absent)] *)
-Located(P, o, noisy) == IF o.occ = <<>> THEN "F" ELSE ShapeRel(P, o.occ[1], noisy)
-ObsMust(P, obs, noisy) == {obs[k].id : k \in {j \in DOMAIN obs : Located(P, obs[j], noisy) = "T"}}
-ObsMay(P, obs, noisy)  == {obs[k].id : k \in {j \in DOMAIN obs : Located(P, obs[j], noisy) # "F"}}
-ObsOk(res, P, obs, noisy) == /\ ObsMust(P, obs, noisy) \subseteq Range(res) /\ Range(res) \subseteq ObsMay(P, obs, noisy)
-                             /\ Cardinality(Range(res)) = Len(res)
+Located(P, o, noisy, h) == IF o.occ = <<>> THEN "F" ELSE ShapeRelH(P, o.occ[1], noisy, h)
+ObsMust(P, obs, noisy, h) == {obs[k].id : k \in {j \in DOMAIN obs : Located(P, obs[j], noisy, h) = "T"}}
+ObsMay(P, obs, noisy, h)  == {obs[k].id : k \in {j \in DOMAIN obs : Located(P, obs[j], noisy, h) # "F"}}
+NoDup(res) == Cardinality(Range(res)) = Len(res)
+ObsOk(res, P, obs, noisy, h) == ObsMust(P, obs, noisy, h) \subseteq Range(res) /\ Range(res) \subseteq ObsMay(P, obs, noisy, h) /\ NoDup(res)
+RingOfId(net, i) == net[CHOOSE k \in DOMAIN net : net[k].id = i].v
+(* map_obstacles_to_lanelets: entries [lid, obs] exactly for the lanelets that hold at least one obstacle *)
+MapOk(res, net, obs, noisy, h) ==
+    /\ \A k \in DOMAIN res : /\ res[k].lid \in Ids(net) /\ res[k].obs # <<>>
+                              /\ ObsOk(res[k].obs, RingOfId(net, res[k].lid), obs, noisy, h)
+    /\ \A j \in DOMAIN net : ObsMust(net[j].v, obs, noisy, h) # {} => \E k \in DOMAIN res : res[k].lid = net[j].id
+    /\ Cardinality({res[k].lid : k \in DOMAIN res}) = Len(res)
+(* filter_obstacles_in_network: the obstacles located on at least one lanelet *)
+FilterOk(res, net, obs, noisy, h) ==
+    /\ UNION {ObsMust(net[j].v, obs, noisy, h) : j \in DOMAIN net} \subseteq Range(res)
+    /\ Range(res) \subseteq UNION {ObsMay(net[j].v, obs, noisy, h) : j \in DOMAIN net}
+    /\ NoDup(res)
 
 (* ------------------------------ lattice motions (translate, then rotate about the origin) ------------ *)
 RotQ(q, p)   == CASE q % 4 = 0 -> p [] q % 4 = 1 -> <<-p[2], p[1]>> [] q % 4 = 2 -> <<-p[1], -p[2]>> [] q % 4 = 3 -> <<p[2], -p[1]>>
